@@ -266,7 +266,7 @@ class Unit:
                  rec=False, flags=(), backends=("minisat",), canaries=(), bounded=None,
                  unwind=None, timeout=600, native=None, mode="c", tiers=("quick", "thorough"),
                  defines=None, trusted=(), assumptions=(), claim="", havoc_loops=False,
-                 expect_fail=(), object_bits=None, split=False, pre_inputs="", nondet_static=False, extra_files=()):
+                 expect_fail=(), object_bits=None, split=False, pre_inputs="", checks=None, ignore=None, nondet_static=False, extra_files=()):
         self.__dict__.update(locals())
         del self.__dict__["self"]
 
@@ -460,7 +460,7 @@ def build_and_check(unit, tier, workdir, mutate=None, want_trace=True, tag="main
         if rc != 0:
             raise Undecided("goto-instrument --dfcc failed for %s (%s): %s" % (unit.name, tag, out[-3000:]))
         cur = nxt
-    base = ["cbmc", cur, "--json-ui", "--no-standard-checks"] + DEFAULT_CHECKS + list(unit.flags)
+    base = ["cbmc", cur, "--json-ui", "--no-standard-checks"] + (DEFAULT_CHECKS if unit.checks is None else list(unit.checks)) + list(unit.flags)
     if unit.unwind:
         base += ["--unwind", str(unit.unwind), "--unwinding-assertions"]
     if unit.object_bits:
@@ -615,6 +615,8 @@ def run_unit(unit, tier, workdir):
     reach = [r for r in results if r.get("description") == "VF_REACH"]
     expect_fail = [re.compile(x) for x in unit.expect_fail]
     others = [r for r in results if r.get("description") != "VF_REACH"]
+    if unit.ignore:
+        others = [r for r in others if not re.search(unit.ignore, r.get("description") or "")]
     R.obligations = len(others)
     fails = []
     for r in others:
